@@ -348,6 +348,9 @@ func main() {
 	if phase == "limiter" {
 		limiterPhase(r, thorough)
 	}
+	if phase == "alloc" {
+		allocPhase(r, thorough)
+	}
 	keys := make([]string, 0, len(stats))
 	for k := range stats {
 		keys = append(keys, k)
